@@ -12,8 +12,8 @@ ENGINE = "S"
 RULE = ("Engine S histories rich in cancels of granted retrievals with several items available, gets in arbitrary "
         "token order, both buffer modes, filter predicates from a fixed family. Oracle: possible-worlds model of the "
         "binding token->item. At each grant the bound item must be a minimal unreserved element of the order the "
-        "statement fixes (FIFO: availability order; a released item precedes every never-reserved item it preceded; two "
-        "released items are mutually unordered; LIFO: most recently available unreserved item, a released item may "
+        "statement fixes (FIFO: never-reserved items in availability order, none of them before a released item that "
+        "preceded it; a released item is always admissible and two released items are mutually unordered; LIFO: most recently available unreserved item, a released item may "
         "count as most recent; filtered request: any matching unreserved item); at get() the returned object must "
         "agree with at least one surviving world and satisfy the token's filter. Non-trivial: a granted retrieval was "
         "cancelled while >=2 other items were available and a later get observed the order, or (LIFO) an item became "
@@ -43,8 +43,9 @@ class Desync(Exception):
 
 
 class DisciplineOracle(Oracle):
-    def __init__(self, res):
+    def __init__(self, res, rank_within_batch=False):
         self.res = res
+        self.rank_within_batch = rank_within_batch   # C14: members of one fleet batch are ordered as they arrive
         self.seq = 0
         self.rank = {}        # id(item) -> availability rank
         self.obj = {}         # id(item) -> item
@@ -68,6 +69,8 @@ class DisciplineOracle(Oracle):
         if new:
             self.seq += 1
             for x in new:
+                if self.rank_within_batch:
+                    self.seq += 1
                 self.rank[id(x)] = self.seq
                 self.obj[id(x)] = x
                 self.avail.append(id(x))
